@@ -4,7 +4,11 @@ Bridge C17: `mises` as /verif/translate/closedform.py regenerates it from the CU
 is, over ℝ, the hand-written `Equistress.mises` (`Model/Equistress.lean`) that the theorems of `Proofs/C17.lean` are
 about: the square root of the same radicand.  Editing a coefficient of the radicand in the source changes the generated
 definition and this proof stops compiling; re-ordering its summands does not.
-(`x ** 2` is translated to `Transc.pow x 2.0`, i.e. the real power `x ^ (2:ℝ) = x * x`; `np.square(x)` to `x * x`.)
+The current source (/repo df52b6f) first multiplies every component by the python float `1.0` (`np.asarray(x) * 1.0`: promotes
+integer / unsigned / bool components to float64, leaves floating ones alone) and writes every square as `np.square`:
+the translator renders these as `s * 1.0` and `x * x`; over ℝ the factor `1.0` disappears in the proof below (`bridge`).
+(A source that writes `x ** 2` is translated to `Transc.pow x 2.0`, i.e. the real power `x ^ (2:ℝ) = x * x` - that is what
+`rpow_two_lit` / `transc_pow` are for; on the current source they are unused simp lemmas and stay for such an edit.)
 The eigenvalue based functions (`eigenval`, `tresca`, `principals`, the sign functions) call `np.linalg.eigvalsh` and
 mutate arrays: outside the translator's straight-line subset, tied by the correspondence run (K).
 -/
